@@ -68,13 +68,67 @@ def scenarios():
         for starts in layouts:
             names = [f"g{i}" for i in range(len(starts))]
             out.append({"kind": "pipeline", "family": fam, "starts": starts, "hits": {g: {"a": 7, "b": 7} for g in names}})
+    # protoclusters given directly (8 slots): identical extents with different cores, identical cores and extents with different
+    # products, an extra protocluster that makes a neighbouring candidate so that the twins both get singles, hybrids
+    for circ, specs in PROTO_SCENARIOS:
+        out.append({"kind": "protos", "circ": circ, "specs": specs})
+    # rule detection on a record that already has (overlapping) subregions: hits outside protoclusters are reported per gene
+    out.append({"kind": "presub", "subs": [[0, 2], [1, 3]], "hits": {"g0": {"a": 7}, "g1": {"a": 7}, "g2": {"a": 7}, "g3": {"a": 7}}})
+    # the real hmm_detection.run_on_record (rule names of the shipped rule files) with the HMMer search replaced
+    out.append({"kind": "hmm-run", "strictness": "relaxed"})
     out.append({"kind": "refine", "hits": [["A", 0, 30, 1], ["B", 0, 60, 1], ["A", 0, 60, 1], ["B", 0, 30, 1]]})
     out.append({"kind": "refine", "hits": [["A", 0, 30, 2], ["A", 25, 60, 2], ["B", 10, 50, 2], ["regulatorR", 0, 10, 2]]})
     return out
 
 
+PROTO_SCENARIOS = [
+    (False, [[1, 1, 1, 4, "p"], [4, 4, 4, 1, "p"], [7, 7, 2, 0, "p"]]),
+    (False, [[1, 1, 1, 4, "p"], [4, 4, 4, 1, "q"], [7, 7, 2, 0, "p"]]),
+    (False, [[2, 2, 1, 1, "p"], [2, 2, 1, 1, "q"], [2, 2, 1, 1, "r"]]),
+    (False, [[2, 3, 1, 1, "p"], [3, 4, 2, 0, "q"], [1, 4, 0, 0, "p"], [1, 4, 0, 0, "q"]]),
+    (True, [[7, 0, 1, 1, "p"], [7, 0, 1, 1, "q"], [1, 1, 1, 2, "p"], [3, 3, 3, 0, "p"]]),
+    (True, [[6, 6, 1, 3, "p"], [1, 1, 4, 0, "p"], [3, 3, 2, 0, "q"]]),
+]
+
+
+def _outputs(rec, extra=""):
+    bio = rec.to_biopython()
+    handle = io.StringIO()
+    SeqIO.write([bio], handle, "genbank")
+    genbank = "\n".join(line for line in handle.getvalue().splitlines() if not line.startswith("LOCUS"))
+    record_json = as_json.dumps(serialiser.record_to_json(bio))
+    areas = as_json.dumps(serialiser.gather_record_areas(rec))
+    summary = [[r.get_region_number(), str(r.location), r.products, [c.get_candidate_cluster_number() for c in r.candidate_clusters]]
+               for r in rec.get_regions()]
+    summary.append([[c.get_candidate_cluster_number(), str(c.kind), [p.get_protocluster_number() for p in c.protoclusters],
+                     [str(p.core_location) for p in c.protoclusters]] for c in rec.get_candidate_clusters()])
+    return "\n=====\n".join([genbank, record_json, areas, extra, json.dumps(summary)])
+
+
 def run_scenario(sc):
     """-> bytes-like canonical output of the whole chain"""
+    if sc["kind"] == "protos":
+        from mc.universe import protos as P  # pylint: disable=import-outside-toplevel
+        rec, _ = P.make_slotted_record(8, sc["circ"], P.default_core_functions(8))
+        rec.add_annotation("molecule_type", "DNA")
+        for spec in sc["specs"]:
+            rec.add_protocluster(P.make_protocluster(8 * P.SLOT, sc["circ"], spec))
+        rec.create_candidate_clusters()
+        rec.create_regions()
+        return _outputs(rec)
+    if sc["kind"] == "presub":
+        from mc.universe import protos as P  # pylint: disable=import-outside-toplevel
+        rec, _ = P.make_slotted_record(8, False, {})
+        rec.add_annotation("molecule_type", "DNA")
+        for first, last in sc["subs"]:
+            rec.add_subregion(P.make_subregion(8 * P.SLOT, False, [first, last, f"s{first}"]))
+        never = [("r1", 3, 1, ["and", [c03.ID_A, c03.ID_B]], [], None)]
+        results = cluster_prediction.detect_protoclusters_and_signatures(rec, c03.make_ruleset(never, sc["hits"]))
+        results.annotate_cds_features()
+        rec.create_regions()
+        return _outputs(rec, as_json.dumps(results.to_json()))
+    if sc["kind"] == "hmm-run":
+        return _hmm_run(sc)
     if sc["kind"] == "refine":
         from mc.props import c13  # pylint: disable=import-outside-toplevel
         hits = [tuple(h) for h in sc["hits"]]
@@ -111,6 +165,24 @@ def run_scenario(sc):
     summary = [[r.get_region_number(), str(r.location), r.products, [c.get_candidate_cluster_number() for c in r.candidate_clusters]]
                for r in rec.get_regions()]
     return "\n=====\n".join([genbank, record_json, areas, results_json, json.dumps(summary)])
+
+
+def _hmm_run(sc):
+    """hmm_detection.run_on_record with the search itself replaced by a stub that finds nothing: what is left is the module's own
+    bookkeeping (which rule names were enabled, strictness) as it is written to the results JSON"""
+    from antismash.detection import hmm_detection  # pylint: disable=import-outside-toplevel
+    from mc.props import c11  # pylint: disable=import-outside-toplevel
+    options = c11.make_options({"hmmdetection_strictness": sc["strictness"]})
+    rec, _ = W.build_world(c07.world_for([5, 8], 24, True))
+    rec.add_annotation("molecule_type", "DNA")
+    saved = hmm_detection.detect_protoclusters_and_signatures
+    empty = cluster_prediction.RuleDetectionResults({}, "rule-based-clusters", [], hmm_detection.get_ruleset(options).multipliers)
+    hmm_detection.detect_protoclusters_and_signatures = lambda record, ruleset: empty
+    try:
+        results = hmm_detection.run_on_record(rec, None, options)
+    finally:
+        hmm_detection.detect_protoclusters_and_signatures = saved
+    return "\n=====\n".join(["", "", "", as_json.dumps(results.to_json()), ""])
 
 
 def digest(text):
@@ -184,7 +256,7 @@ def run_children(seeds):
     for seed in seeds:
         env = dict(os.environ)
         env["PYTHONHASHSEED"] = str(seed)
-        env["PYTHONPATH"] = "/verif"
+        env["PYTHONPATH"] = os.environ.get("PYTHONPATH", "/verif")
         procs.append((seed, subprocess.Popen([sys.executable, "-c", CHILD, str(seed * 1013 % 5000)], env=env,
                                              stdout=subprocess.PIPE, stderr=subprocess.PIPE, text=True)))
     for seed, proc in procs:
